@@ -142,14 +142,18 @@ def judge(h):
         elif name == "put":
             unread_t[call[1]] = True
         if sorted(present_t) != keys_after:
-            return f"call #{i} {call}: vertices appeared that no add() explains: {keys_after} vs {sorted(present_t)}"
+            return f"call #{i} {call}: vertices appeared that no add() explains: {keys_after} vs {sorted(present_t)} (C04)"
     return None
 
 
 def main():
     d = sys.argv[1]
+    # only refutations of the property whose Rust monitor judged the histories count as a
+    # disagreement; what this oracle sees of other properties is reported separately
+    prop = sys.argv[2] if len(sys.argv) > 2 else ""
     n = calls = collections = 0
     bad = []
+    other = {}
     for f in sorted(glob.glob(os.path.join(d, "dump-*.jsonl"))):
         for line in open(f):
             line = line.strip()
@@ -165,9 +169,15 @@ def main():
                 prev = len(ob["k"])
             m = judge(h)
             if m:
-                bad.append({"file": os.path.basename(f), "history": n, "message": m, "calls": h["calls"][:40]})
-    print(json.dumps({"histories": n, "calls": calls, "collections_seen": collections, "disagreements": len(bad), "first": bad[:3]},
-                     ensure_ascii=False))
+                tag = m.rsplit("(", 1)[-1].rstrip(")") if m.endswith(")") else "C02"
+                if "panicked" in m:
+                    tag = "C02"
+                if not prop or tag == prop:
+                    bad.append({"file": os.path.basename(f), "history": n, "message": m, "calls": h["calls"][:40]})
+                else:
+                    other[tag] = other.get(tag, 0) + 1
+    print(json.dumps({"histories": n, "calls": calls, "collections_seen": collections, "disagreements": len(bad), "first": bad[:3],
+                      "refutations_of_other_properties_seen": other}, ensure_ascii=False))
     return 3 if bad else 0
 
 
